@@ -28,9 +28,24 @@ type c10peer struct {
 }
 
 // decodeCol decodes a cell under its advertised type with the reference data codecs.
-func decodeCol(t datatype.DataType, b []byte, v primitive.ProtocolVersion) (interface{}, error) {
+func decodeCol(t datatype.DataType, b []byte, v primitive.ProtocolVersion) (val interface{}, err error) {
 	if b == nil {
 		return nil, nil
+	}
+	// bytes the proxy produced that make the reference codec panic (or ask for gigabytes) are
+	// undecodable bytes - a finding of the caller -, not a failure of the harness
+	defer func() {
+		if r := recover(); r != nil {
+			val, err = nil, fmt.Errorf("reference codec panicked: %v", r)
+		}
+	}()
+	if c := t.Code(); c == primitive.DataTypeCodeSet || c == primitive.DataTypeCodeList || c == primitive.DataTypeCodeMap {
+		if len(b) < 4 {
+			return nil, fmt.Errorf("collection of %d bytes has no element count", len(b))
+		}
+		if n := int64(int32(uint32(b[0])<<24 | uint32(b[1])<<16 | uint32(b[2])<<8 | uint32(b[3]))); n < 0 || n*4 > int64(len(b)) {
+			return nil, fmt.Errorf("collection of %d bytes announces %d elements", len(b), n)
+		}
 	}
 	switch t.Code() {
 	case primitive.DataTypeCodeVarchar, primitive.DataTypeCodeAscii:
